@@ -79,7 +79,7 @@ class _FnCodec:
         return self.rc.decode_item(d, data, boxed)
 
 
-def run_schema(ctx, idx, config="tl2all", values=25, fills=25, mutations=4, label="c11"):
+def run_schema(ctx, idx, config="tl2all", values=25, fills=25, mutations=4, label="c11", tl2=False):
     """one random schema: generate, build, compare. Returns counters dict or None when the generator rejected the schema."""
     s = schemagen.generate(ctx.seed, "%s/%d" % (label, idx))
     name = "rnd%s%d" % (label if label != "c11" else "", idx)
@@ -112,6 +112,15 @@ def run_schema(ctx, idx, config="tl2all", values=25, fills=25, mutations=4, labe
                 if len(data) > 200000:
                     continue
                 add_read(d, boxed, data + b"\xde\xad\xbe\xef", ("accept", len(data), data), "ref-encoded")
+                if tl2 and boxed and not isinstance(d, schemagen.Function):
+                    try:
+                        want2 = rc.encode_item_tl2(d, v)
+                    except (RecursionError, KeyError, AttributeError, TypeError):
+                        want2 = None
+                    if want2 is not None:
+                        cid = len(cases)
+                        cases.append({"id": cid, "op": "T2", "decl": d, "data": data, "want": want2, "negzero": rc.saw_negative_zero})
+                        lines.append("T2 %d %s 1 %s" % (cid, d.constructors[0].lname if d.kind in ("struct", "typedef") else d.uname, data.hex()))
                 for _ in range(mutations):
                     m, mk = mutate(r, data)
                     try:
@@ -149,6 +158,17 @@ def run_schema(ctx, idx, config="tl2all", values=25, fills=25, mutations=4, labe
             cnt["items_not_in_registry"] = cnt.get("items_not_in_registry", 0) + 1
             continue
         d = c["decl"]
+        if c["op"] == "T2":
+            if ev.get("notl2") or ev.get("panic") or not ev.get("ok"):
+                continue
+            cnt["tl2_compared"] = cnt.get("tl2_compared", 0) + 1
+            if ev["tl2"] != c["want"].hex():
+                cl = "tl2-bytes-differ-negative-zero" if c["negzero"] else "tl2-bytes-differ"
+                viol(cl, c, "TL2 written by generated code %s, reference TL2 %s (value given as TL1 %s)" % (ev["tl2"][:300], c["want"].hex()[:300], c["data"].hex()[:300]))
+            else:
+                cnt["agree_tl2"] = cnt.get("agree_tl2", 0) + 1
+                ctx.distinct("%d/%s/tl2" % (idx, d.lname))
+            continue
         if c["op"] == "R":
             cnt["reads"] = cnt.get("reads", 0) + 1
             exp = c["expect"]
